@@ -36,6 +36,7 @@ class Check:
         self.assumptions = []
         self.notes = []
         self._distinct = set()
+        self.tot = {}
         self.known = [k for k in load_known() if k.get('property') == prop]
 
     # ---- observations -------------------------------------------------
@@ -61,6 +62,21 @@ class Check:
             for i in r.internal:
                 self.inconclusive.append(i)
             self.notes.extend(r.diag[:5])
+
+    def run_part(self, harness, flavour, args, cases, nshards=16, extra=(), env=None, wall=1800, nsamples=2):
+        """Build + run one harness part over nshards processes; fold results, stats (into self.tot) and samples."""
+        from . import run as R
+        exe = build.harness(harness, flavour, extra)
+        res, dt = R.run_shards(exe, args, nshards, cases, self.seed, env=env, wall=wall)
+        self.add_results(res, harness, flavour)
+        s = R.merge_stats(res)
+        R._merge(self.tot, s)
+        k = 0
+        for r in res:
+            if r.samples and k < nsamples:
+                self.coverage['samples'].append(r.samples[len(r.samples) // 2])
+                k += 1
+        return s
 
     def nontrivial(self, ident):
         self._distinct.add(ident if isinstance(ident, (str, bytes, int)) else repr(ident))
